@@ -32,3 +32,36 @@ Theorem C10_read_sets :
    (false,false,false,true,false); (false,true,true,true,false); (false,true,true,true,false); (false,true,true,true,false);
    (false,true,true,true,true); (false,false,false,true,true)].
 Proof. reflexivity. Qed.
+
+(* ---- one-price bars (open = high = low = close = x; here open and volume are even arbitrary) ---- *)
+From Coq Require Import Reals.
+From TA Require Import XR FloatInst Proofs.GenericProofs Proofs.Wiring Proofs.OnePrice.
+
+(* FastStochastic and SlowStochastic: same step — state and output — as the scalar path, for every number type whose ==
+   is symmetric; binary64's is, so this is bit-exact for every float input including NaN, infinities and signed zeros *)
+Theorem C10_fast_one_price : forall (F : Type) (O : Ops F), (forall a b : F, eqb O a b = eqb O b a) ->
+  forall (f : @Fast F) o v x, wf_fast f -> fast_next_bar O f (one_bar o v x) = fast_next O f x.
+Proof. exact @fast_one_price. Qed.
+Theorem C10_slow_one_price : forall (F : Type) (O : Ops F), (forall a b : F, eqb O a b = eqb O b a) ->
+  forall (s : @Slow F) o v x, wf_slow O s -> slow_next_bar O s (one_bar o v x) = slow_next O s x.
+Proof. exact @slow_one_price. Qed.
+Theorem C10_fast_one_price_binary64 : forall (f : @Fast PrimFloat.float) o v x, wf_fast f ->
+  fast_next_bar FOps f (one_bar o v x) = fast_next FOps f x.
+Proof. exact fast_one_price_binary64. Qed.
+Theorem C10_slow_one_price_binary64 : forall (s : @Slow PrimFloat.float) o v x, wf_slow FOps s ->
+  slow_next_bar FOps s (one_bar o v x) = slow_next FOps s x.
+Proof. exact slow_one_price_binary64. Qed.
+
+(* TrueRange, ATR, KeltnerChannel: exact arithmetic, finite prices; KC's typical price (x+x+x)/3 is x *)
+Theorem C10_tr_one_price : forall (t : @Tr XR) o v x, fin_tr t ->
+  tr_next_bar XROps t (one_bar o v (Fin x)) = tr_next XROps t (Fin x).
+Proof. exact tr_one_price. Qed.
+Theorem C10_atr_one_price : forall (a : @Atr XR) o v x, fin_tr (atr_true_range a) ->
+  atr_next_bar XROps a (one_bar o v (Fin x)) = atr_next XROps a (Fin x).
+Proof. exact atr_one_price. Qed.
+Theorem C10_kc_one_price : forall (k : @Kc XR) o v x, fin_tr (atr_true_range (kc_atr k)) ->
+  kc_next_bar XROps k (one_bar o v (Fin x)) = kc_next XROps k (Fin x).
+Proof. exact kc_one_price. Qed.
+Theorem C10_atr_one_price_stream : forall p a xs o v, atr_new XROps p = Ok a ->
+  atr_bar_outs XROps a (map (fun x => one_bar o v (Fin x)) xs) = atr_outs XROps a (map Fin xs).
+Proof. exact atr_one_stream. Qed.
